@@ -9,9 +9,12 @@
     at 128; legacy: split at 128; extension only if ≥ 4 octets remain; otherwise everything is datagram).
  R5 scale factors: length is get_length()·4 in both ICMPv4 types and ·8 in both ICMPv6 types, computed without narrowing; the ICMP payload
     starts after the 8-octet header; only extension version 2 is interpreted.
+ R7 what is reported: ExtensionObjectPacket::payload() is packet[4 .. max(min(length, len), 4)]; an unknown object is reported with its own class,
+    sub-type and payload(); label-stack entries are copied getter by getter from every member the iterator yields; an object is an MPLS
+    stack iff its class is 1 and the stack is parsed from the object's own payload.
  R6 sibling cross-check of the extension parse mode table in extract_probe_resp (informational where the siblings differ).
-Not decided: "reports exactly the objects, labels and values that were encoded" as a round-trip equality (it follows from C12 for the fields
-plus R2 for the walk, but the composition is not mechanised).
+Not decided: "reports exactly the objects, labels and values that were encoded" as a round-trip equality (it follows from C12 for the fields,
+R2 for the walk and R7 for what is copied, but the composition is not mechanised).
 """
 import re
 
@@ -270,6 +273,108 @@ def run(chk, tier):
     if not any(c.startswith('DestinationUnreachablePacket::payload_raw') for c in table.get('ipv4::Ipv4', [])):
         chk.notes.append('sibling difference: DestinationUnreachable always uses payload() (RFC 4884 split) even with extension parsing Disabled, '
                          'while TimeExceeded uses payload_raw(); no observable defect was derived from it')
+
+    # ---- R7: what is reported for each object ------------------------------------------------------------------
+    chk.rule('R7', 'conversion: an object\'s bytes are its own payload (clipped to its length field), class and labels are copied by name, MPLS iff class 1', floor=5)
+    e7 = Engine(prog, inline_depth=0)
+    W = lambda x: r'(?:as_usize\()?%s\)?' % x
+
+    def conv(rx):
+        fs_ = [f_ for p_, f_ in prog.fns.items() if re.search(rx, p_) and '::tests' not in p_ and f_['kind'] != 'Closure']
+        if len(fs_) != 1:
+            chk.fail('R7', 'anchor:' + rx[:40], '?', 'conversion %s not found (anchor lost)' % rx, key='R7|anchor|' + rx[:40])
+            return None, []
+        chk.fn_seen(fs_[0]['path'])
+        st_ = St()
+        a_ = [('sym', 'value')] if not fs_[0]['locals'][1]['ty'].startswith('&') else [e7.sym_ref(st_, 'self')]
+        return fs_[0], e7.run(fs_[0], a_, st_)
+
+    def fields_of(adt, val):
+        """`Adt(a, b, c)` as printed -> {field name: printed value} (top-level split on commas)"""
+        names = [y['name'] for y in prog.adt(adt)['variants'][0]['fields']]
+        m_ = re.fullmatch(r'\w+\((.*)\)', val, re.S)
+        if not m_:
+            return None
+        parts, depth, cur = [], 0, ''
+        for ch in m_.group(1):
+            if ch == ',' and depth == 0:
+                parts.append(cur.strip())
+                cur = ''
+                continue
+            depth += ch in '([{'
+            depth -= ch in ')]}'
+            cur += ch
+        parts.append(cur.strip())
+        return dict(zip(names, parts)) if len(parts) == len(names) else None
+    # (a) the payload of an object: from the 4-octet object header to its own length field, clipped to the buffer and never before the header
+    f_, outs_ = conv(r'extension_object::ExtensionObjectPacket(::<.*>)?::payload$')
+    MINP, BUF = r'call:ExtensionObjectPacket::minimum_packet_size\(\)', r'call:Buffer::as_slice\(self\.buf\)'
+    LEN, BL = W(r'call:ExtensionObjectPacket::get_length\(self\)'), r'len\(%s\)' % r'call:Buffer::as_slice\(self\.buf\)'
+    clip = r'(?:Min\(%s, %s\)|Min\(%s, %s\))' % (LEN, BL, BL, LEN)
+    end_ = r'(?:Max\(%s, (?:%s|4)\)|Max\((?:%s|4), %s\))' % (clip, MINP, MINP, clip)
+    vals = sorted({vshow(o.value) if o.kind == 'return' else o.kind for o in outs_})
+    if f_ is not None:
+        if len(vals) == 1 and re.fullmatch(r'call:index::index\(%s, Range\((?:%s|4), %s\)\)|subslice\(%s, (?:%s|4), %s\)' % (BUF, MINP, end_, BUF, MINP, end_), vals[0]) and not any(o.st.decisions for o in outs_):
+            chk.ok('R7', 'object:payload', 'packet[4 .. max(min(length, len), 4)]')
+        else:
+            chk.fail('R7', 'object:payload', fn_loc(f_), 'ExtensionObjectPacket::payload is %s; an object\'s payload runs from its 4-octet header to its own length field (clipped to the buffer)' % [v[:200] for v in vals], key='R7|object|payload')
+    # (b) unknown objects: class, sub-type and exactly the object's own payload
+    f_, outs_ = conv(r'From<.*ExtensionObjectPacket<.*>> for trippy_core::probe::UnknownExtension>::from$')
+    if f_ is not None:
+        vals = sorted({vshow(o.value) if o.kind == 'return' else o.kind for o in outs_})
+        fl = fields_of('trippy_core::probe::UnknownExtension', vals[0]) if len(vals) == 1 else None
+        want = {'class_num': r'call:ClassNum::id\(call:ExtensionObjectPacket::get_class_num\(value\)\)', 'class_subtype': r'field:0\(call:ExtensionObjectPacket::get_class_subtype\(value\)\)|call:ClassSubType::id\(call:ExtensionObjectPacket::get_class_subtype\(value\)\)',
+                'bytes': r'(?:call:\w+::(?:to_owned|to_vec|from)\()?call:ExtensionObjectPacket::payload\(value\)\)?'}
+        bad = [k for k in want if fl is None or not re.fullmatch(want[k], fl.get(k, ''))]
+        if not bad:
+            chk.ok('R7', 'unknown:fields', fl)
+        else:
+            chk.fail('R7', 'unknown:fields', fn_loc(f_), 'UnknownExtension::from takes %s from %s; class, sub-type and the bytes of an object are its own getters and its own payload() (the object slices handed out by the iterator run to the end of the whole structure: only payload() clips them)' % (
+                bad, {k: (fl or {}).get(k, vals)[:120] if fl else str(vals)[:160] for k in bad}), key='R7|unknown|' + ','.join(bad))
+    # (c) label stack entries are copied field by field
+    f_, outs_ = conv(r'From<.*MplsLabelStackMemberPacket<.*>> for trippy_core::probe::MplsLabelStackMember>::from$')
+    if f_ is not None:
+        vals = sorted({vshow(o.value) if o.kind == 'return' else o.kind for o in outs_})
+        fl = fields_of('trippy_core::probe::MplsLabelStackMember', vals[0]) if len(vals) == 1 else None
+        bad = [k for k in (fl or {'?': ''}) if not re.fullmatch(r'call:MplsLabelStackMemberPacket::get_%s\(value\)' % k, (fl or {}).get(k, ''))]
+        if fl and not bad:
+            chk.ok('R7', 'mpls-member:fields', fl)
+        else:
+            chk.fail('R7', 'mpls-member:fields', fn_loc(f_), 'MplsLabelStackMember::from fills %s from %s, not from the getter of the same name' % (bad, fl or vals), key='R7|mpls-member|' + ','.join(bad))
+    # (d) the stack is made of every member the iterator yields
+    f_, outs_ = conv(r'From<.*MplsLabelStackPacket<.*>> for trippy_core::probe::MplsLabelStack>::from$')
+    if f_ is not None:
+        vals = sorted({vshow(o.value) if o.kind == 'return' else o.kind for o in outs_})
+        if len(vals) == 1 and re.fullmatch(r'MplsLabelStack\(call:Iterator::collect\(call:Iterator::map\(call:Iterator::flat_map\(call:MplsLabelStackPacket::members\(value\), fn:[^,]*MplsLabelStackMemberPacket::<.a>::new_view\), fn:[^,]*MplsLabelStackMember>::from\)\)\)', vals[0]):
+            chk.ok('R7', 'mpls-stack:members', 'members().flat_map(new_view).map(from).collect()')
+        else:
+            chk.fail('R7', 'mpls-stack:members', fn_loc(f_), 'MplsLabelStack::from is %s; expected every member of value.members(), viewed and converted' % [v[:200] for v in vals], key='R7|mpls-stack')
+    # (e) dispatch on the class: MPLS label stack iff class 1, built from the object's own payload
+    cls_ = [f_ for p_, f_ in prog.fns.items() if re.search(r'TryFrom<.*ExtensionsPacket<.*>> for trippy_core::probe::Extensions>::try_from::\{closure#\d+\}$', p_)]
+    cn = prog.variant_names('trippy_packet::icmp_extension::extension_object::ClassNum')
+    MPLS = cn.index('MultiProtocolLabelSwitchingLabelStack')
+    okd, whyd, rows = bool(cls_), 'no per-object closure found', 0
+    for c_ in cls_[:1]:
+        st_ = St()
+        for o in e7.run(c_, [e7.sym_ref(st_, 'env'), ('sym', 'obj')], st_):
+            d = [(vshow(a), v) for a, v, _ in o.st.decisions]
+            val = vshow(o.value)
+            cd_ = [v for a, v in d if a == 'discr(call:ExtensionObjectPacket::get_class_num(obj))']
+            is_mpls = None if len(cd_) != 1 else (cd_[0] == MPLS if isinstance(cd_[0], int) else (False if (isinstance(cd_[0], tuple) and cd_[0][0] == 'ne' and MPLS in set(cd_[0][1])) else None))
+            rows += 1
+            NV = r'call:MplsLabelStackPacket::new_view\(call:ExtensionObjectPacket::payload\(obj\)\)'
+            if is_mpls is True:
+                if not re.fullmatch(r'Result::Ok\(Extension::Mpls\(call:extension::from\(field:0\(%s\)\)\)\)|Result::Err\(field:0\(%s\)\)' % (NV, NV), val):
+                    okd, whyd = False, 'a class-1 object becomes %s' % val[:160]
+            elif is_mpls is False:
+                if val != 'Result::Ok(Extension::Unknown(call:extension::from(obj)))':
+                    okd, whyd = False, 'an object of another class becomes %s' % val[:160]
+            else:
+                okd, whyd = False, 'the per-object conversion decides on %s' % d
+    if okd and rows >= 3:
+        chk.ok('R7', 'dispatch', 'Mpls(new_view(obj.payload())) iff class 1, Unknown(obj) otherwise')
+    else:
+        chk.fail('R7', 'dispatch', '?', 'Extensions::try_from: %s' % whyd, key='R7|dispatch')
 
 
 def _bounds_of(P, v, base):
